@@ -1011,9 +1011,10 @@ class VarsManager(object):
         else:
             ret = method(f2, np.array(x0), **mini_kwargs)
         self.set_all(ret.x, val_in_fit=True)
+        x_fit = ret.x  # the fit variables: y'(x) is evaluated there
         ret.x = np.array(self.get_all_val())
         if isinstance(ret.hess_inv, np.ndarray):
-            ret.hess_inv = self.trans_error_matrix(ret.hess_inv, ret.x)
+            ret.hess_inv = self.trans_error_matrix(ret.hess_inv, x_fit)
         else:
             ret.hess_inv = None
         return ret
@@ -1047,10 +1048,9 @@ class VarsManager(object):
                 return float(y), np.array([float(i) for i in g]), np.array(hs)
 
             _, _, hess = f(fit_result.x)
-            hess_inv = np.linalg.inv(hess)
-            fit_result.hess_inv = self.trans_error_matrix(
-                hess_inv, fit_result.x
-            )
+            # hess is taken with respect to the physical parameters
+            # (fit_result.x): its inverse needs no bound transformation
+            fit_result.hess_inv = np.linalg.inv(hess)
         x_error = np.sqrt(np.diag(fit_result.hess_inv))
         return x_error
 
